@@ -46,7 +46,7 @@ Walk(at, parts) ==
   ELSE IF at \notin Dirs THEN [ok |-> FALSE, path |-> at]          \* walking through a file or a missing directory
   ELSE Walk(Append(at, parts[1]), Tail(parts))
 
-HasSuffix(s) == s \in {"a.txt", "c.txt", "d.txt", "secret.txt", "sub.txt"}
+HasSuffix(s) == s \in {"a.txt", "c.txt", "d.txt", "secret.txt", "sub.txt", "@SLASH@secret.txt"}
 WithExt(parts) ==
   IF Ext = "" \/ parts = <<>> \/ HasSuffix(parts[Len(parts)]) \/ parts[Len(parts)] = ".." THEN parts
   ELSE [parts EXCEPT ![Len(parts)] = @ \o Ext]
